@@ -82,6 +82,21 @@ Definition setup_paths_at (inputs : list fpath) (d : Z) (name : list Z)
   if existsb (fpath_eqb o) inputs || existsb (fpath_eqb t) inputs
   then None else Some (o, t).
 
+(* several requested outputs (lists: tdms2rtdc on a folder, any caller of
+   setup_task_paths with lists): `for po in paths_out + paths_temp: refuse if
+   po.resolve() is an input`; then every output and every temporary path is
+   unlinked when it exists - [unlink_set] is exactly what setup may remove *)
+Definition out_tmp (r : fpath) : fpath * fpath :=
+  ((fst r, normalize_out (snd r)), (fst r, temp_of (normalize_out (snd r)))).
+
+Definition unlink_set (reqs : list fpath) : list fpath :=
+  map (fun r => fst (out_tmp r)) reqs ++ map (fun r => snd (out_tmp r)) reqs.
+
+Definition setup_paths_list (inputs reqs : list fpath)
+  : option (list (fpath * fpath)) :=
+  if existsb (fun p => existsb (fpath_eqb p) inputs) (unlink_set reqs)
+  then None else Some (map out_tmp reqs).
+
 (* one directory *)
 Definition setup_paths (inputs : list (list Z)) (name : list Z)
   : option (list Z * list Z) :=
